@@ -422,6 +422,9 @@ class BaseParser:
                         min_params=options.min_params, params_num=len(data)
                     )
                 )
+        if any(unprovided(value) for value in data.values()):
+            # the marker for "not provided" given as a value means just that, whatever the lookup strategy
+            data = {key: value for key, value in data.items() if not unprovided(value)}
         dfs = (
             options.data_first_search
             if options.data_first_search is not None
